@@ -257,6 +257,11 @@ impl<'a, 'b: 'a, R: Read> RowParser<'a, 'b, R> {
                 break;
             }
 
+            if self.parser.lexer.cur.value.is_none() {
+                // End of input inside a row
+                break;
+            }
+
             let val = self.parser.parse_value()?;
             match cols.get(col_num) {
                 Some(col) => dict.insert(col.name.clone(), val),
